@@ -155,6 +155,30 @@ func (in *Interp) jsonUnmarshal(data Value, dst Value) Value {
 
 func (in *Interp) jsonMarshal(v Value, kind string) Value {
 	i, _ := v.(Iface)
+	// a flat map of scalars marshals deterministically: the same (unmodified) object gives the same bytes
+	if m, ok := i.V.(*Map); ok && m != nil {
+		flat := true
+		for _, e := range m.entries {
+			ev := in.force(e.v)
+			if iv, isI := ev.(Iface); isI {
+				ev = iv.V
+			}
+			switch ev.(type) {
+			case *Term, Float, nil:
+			default:
+				flat = false
+			}
+		}
+		if flat {
+			key := fmt.Sprintf("jsonenc:%p:%d", m, m.ver)
+			if b, ok := in.memo[key]; ok {
+				return Tuple{b, Iface{}}
+			}
+			b := in.encodeBlob(kind, i.T, i.V)
+			in.memo[key] = b
+			return Tuple{b, Iface{}}
+		}
+	}
 	return Tuple{in.encodeBlob(kind, i.T, i.V), Iface{}}
 }
 
@@ -344,5 +368,76 @@ func init() {
 			sec := args[0].(Struct)[1].(*Term)
 			return in.noteUF(in.tb.UF("time.rfc3339", SortStr, sec)), true
 		}
+	})
+}
+
+// ---- crypto plumbing: hash objects, curves, base64 -----------------------------------------------
+func init() {
+	extraStubs = append(extraStubs, func(e *Engine) {
+		e.Stubs["(crypto.Hash).Available"] = func(in *Interp, fn *ssa.Function, args []Value) (Value, bool) {
+			return in.tb.Bool(true), true
+		}
+		// crypto.Hash.New: an object accumulating what is written; Sum(nil) = H(alg, data) (uninterpreted)
+		e.Stubs["(crypto.Hash).New"] = func(in *Interp, fn *ssa.Function, args []Value) (Value, bool) {
+			alg := args[0].(*Term)
+			data := in.tb.Str("")
+			obj := &nativeObj{kind: "hash"}
+			obj.invoke = func(in *Interp, method string, a []Value) Value {
+				switch method {
+				case "Write":
+					data = in.tb.Concat(data, in.bytesToStr(a[0]))
+					return Tuple{in.lenOf(a[0]), Iface{}}
+				case "Sum":
+					h := in.noteUF(in.tb.UF("crypto.hash", SortStr, alg, data))
+					if pre, ok := a[0].([]Value); ok && len(pre) > 0 {
+						return SymBytes{in.tb.Concat(in.bytesToStr(pre), h)}
+					}
+					return SymBytes{h}
+				case "Reset":
+					data = in.tb.Str("")
+					return nil
+				}
+				panic(in.abort("hash.Hash.%s is not modelled", method))
+			}
+			return Iface{T: fn.Signature.Results().At(0).Type(), V: obj}, true
+		}
+		for _, n := range []string{"crypto/elliptic.P256", "crypto/elliptic.P384", "crypto/elliptic.P521", "crypto/elliptic.P224", "github.com/btcsuite/btcd/btcec.S256"} {
+			e.Stubs[n] = func(in *Interp, fn *ssa.Function, args []Value) (Value, bool) {
+				return in.zero(fn.Signature.Results().At(0).Type()), true
+			}
+		}
+		b64enc := func(in *Interp, fn *ssa.Function, args []Value) (Value, bool) {
+			dt := in.bytesToStr(args[1])
+			key := fmt.Sprintf("b64enc:%d", dt.id)
+			if m, ok := in.memo[key]; ok {
+				return m, true
+			}
+			name := in.uniqueName("blob.b64")
+			b := in.tb.Var(name, SortStr)
+			in.nondets = append(in.nondets, nondetRec{name, b, "blob"})
+			in.codecs[name] = &codecEntry{"b64", nil, SymBytes{dt}}
+			in.memo[key] = b
+			return b, true
+		}
+		b64dec := func(in *Interp, fn *ssa.Function, args []Value) (Value, bool) {
+			s := args[1].(*Term)
+			if e, ok := in.decodeBlob("b64", s); ok {
+				return Tuple{e.V, Iface{}}, true
+			}
+			key := fmt.Sprintf("b64dec:%d", s.id)
+			if m, ok := in.memo[key]; ok {
+				return copyVal(m), true
+			}
+			var r Value
+			if in.Choose(2) == 1 {
+				r = Tuple{[]Value(nil), in.NewError(in.tb.Str("illegal base64 data"))}
+			} else {
+				r = Tuple{SymBytes{in.Nondet("b64dec", SortStr, "bytes")}, Iface{}}
+			}
+			in.memo[key] = r
+			return r, true
+		}
+		e.Stubs["(*encoding/base64.Encoding).EncodeToString"] = b64enc
+		e.Stubs["(*encoding/base64.Encoding).DecodeString"] = b64dec
 	})
 }
